@@ -179,7 +179,9 @@ def spaces(tier, seed):
         for side in ("lm", "rm"):
             for r in range(ny):
                 for c in range(nx):
-                    for v in (1, 2):
+                    # 1 = nodata, every other non-zero code = invalid: also codes that equal 0 or 1 modulo 256 (the
+                    # mask is an int16 raster)
+                    for v in (1, 2, (256, 257, -255)[(r + c) % 3]):
                         k += 1
                         sp = dict(base)
                         sp[side] = [[r, c, v]]
